@@ -230,8 +230,8 @@ func ruleClientServerAuth12(c *Ctx, r *Report) {
 				// arguments
 				a := vsc[0].Call.Args
 				okArgs := allLeaves(c.Origins(a[0], 0), func(v ssa.Value) bool { return isFieldLoad(v, tCom, "PeerCertificates") }) &&
-					isFieldLoad(a[1], tCfg, "RootCAs") && isFieldLoad(a[2], tCfg, "ServerName")
-				r.Check(okArgs, rule, key+":VerifyServerCert-args", c.ipos(vsc[0]), "chain = state.PeerCertificates, roots = cfg.RootCAs, name = cfg.ServerName", "VerifyServerCert is not given (state.PeerCertificates, cfg.RootCAs, cfg.ServerName)")
+					isFieldLoad(a[1], tCfg, "RootCAs") && nameFromConfig(a[2])
+				r.Check(okArgs, rule, key+":VerifyServerCert-args", c.ipos(vsc[0]), "chain = state.PeerCertificates, roots = cfg.RootCAs, name = the configuration's server name", "VerifyServerCert is not given (state.PeerCertificates, cfg.RootCAs, the configuration's server name)")
 			}
 			// application callback
 			cbs := dynCallsOfField(fn, tCfg, "VerifyPeerCertificate")
@@ -677,3 +677,18 @@ func ruleProtectedFlight13(c *Ctx, r *Report) {
 }
 
 var _ = token.ADD
+
+// nameFromConfig: the value is a name field of the handshake configuration, or what a method of
+// the handshake configuration returns (which of its name fields is decided by rule
+// server-name-verified-as-configured).
+func nameFromConfig(v ssa.Value) bool {
+	if o, f, _, ok := fieldLoad(v); ok && o == tCfg && strings.Contains(f, "ServerName") {
+		return true
+	}
+	if call, ok := v.(*ssa.Call); ok {
+		if callee := call.Call.StaticCallee(); callee != nil && callee.Signature.Recv() != nil && namedOrType(callee.Signature.Recv().Type()) == tCfg {
+			return true
+		}
+	}
+	return false
+}
